@@ -563,6 +563,29 @@ def run(ctx, rep):
                   what="the keep counter is decremented whenever a period's newest snapshot is counted, independently of the keep-within test" if not bad else
                        "the keep counter is only decremented depending on the keep-within test: 'last N / newest N periods' would no longer be counted from the newest snapshot")
     rep.count("C09.a: days enumerated", len(days()))
+    # ---- C09.g: "newest first" is an order of instants ---------------------------------------------------------------
+    rep.rule("C09.g", "snapshots are ordered by the instant they were taken (Zoned / Timestamp order), not by a civil projection of it")
+    SC = prog.find1(r"^<rustic_core::repofile::snapshotfile::SnapshotFile as std::cmp::Ord>::cmp$")
+    cmps = [(bb, t) for bb, t in SC.calls() if "callee" in t and re.search(r"cmp::Ord(>)?::cmp$|cmp::PartialOrd(<.*>)?(>)?::partial_cmp$", callee(t) + " " + callee_decl(t))]
+    rep.require("C09.g", "SnapshotFile::cmp/compares", len(cmps) >= 1, where=SC.loc(), what="<SnapshotFile as Ord>::cmp delegates to a comparison")
+    okg = bool(cmps)
+    detail = []
+    for bb, t in cmps:
+        for a in t["args"][:2]:
+            e = flow.expr_of(SC, a, bb)
+            flds, cls = flow.expr_mentions(e)
+            if "time" not in flds:
+                continue
+            # allowed between the field and the comparison: references / clones and the instant accessor
+            extra = [c for c in cls if not re.search(r"Clone>::clone$|Deref>::deref$|Borrow<.*>>::borrow$|AsRef<.*>>::as_ref$|jiff::Zoned::timestamp$", c)]
+            if extra:
+                okg = False
+                detail.append(extra[0].rsplit("::", 1)[-1])
+        if not re.search(r"<jiff::(Zoned|Timestamp) as std::cmp::(Ord|PartialOrd)>::", callee(t)) and any("time" in flow.expr_mentions(flow.expr_of(SC, a, bb))[0] for a in t["args"][:2]):
+            okg = False
+            detail.append(callee(t))
+    rep.check("C09.g", "SnapshotFile::cmp/instant-order", okg, where=SC.loc(), what="SnapshotFile is ordered by its `time` as an instant (<jiff::Zoned as Ord>::cmp)" if okg else
+              f"SnapshotFile is ordered by a civil projection of its time ({sorted(set(detail))}): snapshots recorded with different UTC offsets are counted in the wrong order by every keep rule (newest-first)")
     # ---- C09.f: periods are those of the snapshot's own recorded local time ---------------------------------------
     rep.rule("C09.f", "a time stamp stored with a numeric offset is read back in that offset (civil date/time as recorded), not converted to a default zone")
     PARSE = prog.find1(r"^rustic_core::repofile::RusticTime::parse$")
